@@ -10,16 +10,13 @@ import (
 	"errors"
 	"fmt"
 	"io"
-	"net"
 	"net/http"
 	"net/http/httptest"
 	"os"
 	"path/filepath"
 	"runtime"
 	"strconv"
-	"strings"
 	"syscall"
-	"time"
 
 	"github.com/safing/jess"
 
@@ -160,55 +157,38 @@ func runWriter(specPath string) int {
 		switch spec.Writer {
 		case "fetch":
 			body := content(1)
-			var sigBody []byte
+			if P["tamper"] == "1" {
+				body = content(3) // same length, other bytes: the signed checksum does not match
+			}
 			ctx, cancel := context.WithCancel(context.Background())
-			srv := httptest.NewServer(http.HandlerFunc(func(w http.ResponseWriter, r *http.Request) {
-				if strings.HasSuffix(r.URL.Path, ".sig") {
-					if sigBody == nil {
-						http.NotFound(w, r)
-						return
-					}
-					w.Header().Set("Content-Length", strconv.Itoa(len(sigBody)))
-					_, _ = w.Write(sigBody)
-					return
-				}
-				// A failing try cancels the context BEFORE its handler returns: the retries of DownloadUpdates then
-				// return at once (no back-off wait, and never a second attempt, however slow the machine is).
-				switch P["fail"] {
-				case "404":
-					http.NotFound(w, r)
-					if f, ok := w.(http.Flusher); ok {
-						f.Flush()
-					}
-					time.Sleep(20 * time.Millisecond) // let the client see the status
-					cancel()
-				case "short":
-					w.Header().Set("Content-Length", strconv.Itoa(len(body)))
-					w.WriteHeader(200)
-					_, _ = w.Write(body[:len(body)/2])
-					if f, ok := w.(http.Flusher); ok {
-						f.Flush()
-					}
-					time.Sleep(30 * time.Millisecond) // let the client copy what it got
-					cancel()
-					if hj, ok := w.(http.Hijacker); ok {
-						if c, _, err := hj.Hijack(); err == nil {
-							if tc, ok := c.(*net.TCPConn); ok {
-								_ = tc.SetLinger(0)
-							}
-							_ = c.Close()
-						}
-					}
-				default:
-					w.Header().Set("Content-Length", strconv.Itoa(len(body)))
-					_, _ = w.Write(body)
-				}
-			}))
+			defer cancel()
+			plan := P["srv"]
+			if plan == "" {
+				plan = "ok"
+			}
+			steps, err := parsePlan(plan, len(body))
+			if err != nil {
+				fmt.Println("writer: plan:", err)
+				return 3
+			}
+			obs := &dlObserver{inner: http.DefaultTransport, planned: len(steps), cancel: cancel, cancelSig: P["cancel_on_sig"] == "1"}
+			if P["api"] == "getfile" {
+				obs.cancel = nil // GetFile has no context: the plan ends with a successful attempt
+			}
+			http.DefaultTransport = obs
+			dls := &dlServer{steps: steps, body: body, obs: obs}
+			srv := httptest.NewServer(dls)
 			defer srv.Close()
 			reg.UpdateURLs = []string{srv.URL}
 			reg.MandatoryUpdates = []string{id}
 			if P["signed"] == "1" {
-				sigBody = content(2)
+				switch {
+				case P["nosig"] == "1":
+				case P["badsig"] == "1":
+					dls.sigBody = []byte("this is not a signature file\n")
+				default:
+					dls.sigBody = content(2)
+				}
 				sb, err := os.ReadFile(filepath.Join(spec.Meta, "signet.json"))
 				if err != nil {
 					fmt.Println("writer: signet:", err)
@@ -228,8 +208,15 @@ func runWriter(specPath string) int {
 					fmt.Println("writer: trust store:", err)
 					return 3
 				}
+				var pol updater.SignaturePolicy = updater.SignaturePolicyRequire
+				switch P["policy"] {
+				case "warn":
+					pol = updater.SignaturePolicyWarn
+				case "disable":
+					pol = updater.SignaturePolicyDisable
+				}
 				reg.Verification = map[string]*updater.VerificationOptions{
-					"": {TrustStore: ts, DownloadPolicy: updater.SignaturePolicyRequire, DiskLoadPolicy: updater.SignaturePolicyRequire},
+					"": {TrustStore: ts, DownloadPolicy: pol, DiskLoadPolicy: pol},
 				}
 			}
 			if err := reg.AddResource(id, P["version"], &updater.Index{AutoDownload: true}, P["have"] == "1", true, false); err != nil {
@@ -238,8 +225,14 @@ func runWriter(specPath string) int {
 			}
 			reg.SelectVersions()
 			op = func() error {
-				err := reg.DownloadUpdates(ctx, false)
+				var err error
+				if P["api"] == "getfile" {
+					_, err = reg.GetFile(id)
+				} else {
+					err = reg.DownloadUpdates(ctx, false)
+				}
 				cancel()
+				fmt.Println(obs.report())
 				return err
 			}
 		case "unpack-zip":
